@@ -140,13 +140,13 @@ Proof.
   rewrite <- !app_assoc.
   rewrite (Hv (ISym x :: ILet 2 :: IOpen false :: stk) _ I). rewrite cont_nonempty.
   (* ) : the definition *)
-  cbn [app SmtParse.run SmtParse.step split_at_open]. cbn [parse_pattern pbind]. cbn [machine_done].
+  cbn [app SmtParse.run SmtParse.step split_at_open]. erewrite (SmtParseProofs.checked_ok cv) by reflexivity. cbn [pbind]. cbn [machine_done].
   (* ) : the scope *)
   cbn [SmtParse.run SmtParse.step machine_done].
   (* the body *)
   rewrite <- app_assoc. rewrite (Hb (IOpen true :: stk) _ I). rewrite cont_nonempty.
   (* ) *)
-  cbn [app SmtParse.run SmtParse.step split_at_open parse_pattern pbind]. rewrite (pop_push st x ev Hx3). cbn [pbind].
+  cbn [app SmtParse.run SmtParse.step split_at_open]. erewrite (SmtParseProofs.checked_ok cv) by reflexivity. cbn [pbind]. rewrite (pop_push st x ev Hx3). cbn [pbind].
   unfold SmtParseProofs.cont. destruct (machine_done (IExpr eb :: stk)); reflexivity.
 Qed.
 
